@@ -69,6 +69,7 @@ def restructure(spec, rng):
 
 def all_cases(ctx):
     base = F.f_shape() + [c for c in F.f_unit(3, pairs=False)] + F.f_rand(ctx.seed, 20 if ctx.quick else 100, consts=None)
+    base += F.renamed([c for c in F.f_unit(3) if c[0][0] == "pair"][:8] + F.f_shape()[:5], "miter2")
     out = []
     for cid, spec in base:
         for variant in ("self", "copy", "restructured", "mutant", "renamed_input", "input_is_gate"):
